@@ -166,6 +166,10 @@ structure DState where
   undistributed : Nat := 0    -- debits larger than the version's funding
   mixedKey : Nat := 0
   factSwitches : Nat := 0
+  adopted : Nat := 0          -- attributions validated instead of predicted
+  parOps : Nat := 0           -- concurrent reservation rounds
+  parGranted : Nat := 0
+  parRefused : Nat := 0
 
 def nth (l : List Nat) (i : Nat) : Nat := l.getD i 0
 def setNth (l : List Nat) (i v : Nat) : List Nat := l.set i v
@@ -260,6 +264,57 @@ def panicMonitor (op res : String) : List Verdict :=
     else [.monitor "no_panic" res]
   else []
 
+/-! ### the order of the attribution is not constrained by C11
+
+Which funding row is drawn first and in which order the usage categories are served is the
+code's choice (today: rowid order; storage, ingress, egress, registry read, registry write,
+rpc).  If the model's prediction of the funding tables / usage columns differs from the
+implementation after an accepted debit, the driver therefore VALIDATES the implementation's
+result instead (every clause monitor silent, only rows of the debited account shrank, no row
+appeared, every usage category only grew and by no more than the debit's category, API and raw
+columns agree) and continues from the implementation's tables.  A result that is not a valid
+attribution stays a MISMATCH. -/
+
+def distFields : List String :=
+  ["c11.f1", "c11.f2", "c11.af1", "c11.u1", "c11.u2", "c11.u1api", "c11.u2api", "c11.fc1", "c11.fc2"]
+
+def catSum (pu ou : List Usage) (sel : Usage → Nat) : Nat :=
+  (List.range pu.length).foldl (fun acc c => acc + (sel (ou.getD c {}) - sel (pu.getD c {}))) 0
+
+def validAttribution (p o : Obs) (v2 : Bool) (a : Nat) (u : Usage) : Bool :=
+  let pf := if v2 then p.f2 else p.f1
+  let of' := if v2 then o.f2 else o.f1
+  let pu := if v2 then p.u2 else p.u1
+  let ou := if v2 then o.u2 else o.u1
+  let others := (pf.filter (·.account != a)) == (of'.filter (·.account != a))
+  let shrunk := (of'.filter (·.account == a)).all fun r =>
+    pf.any fun q => q.account == a && q.contract == r.contract && r.amount ≤ q.amount && (r.amount != 0 || q.amount == 0)
+  let untouchedVersion := if v2 then showRows p.f1 == showRows o.f1 && p.u1 == o.u1 else showRows p.f2 == showRows o.f2 && p.u2 == o.u2
+  let grow := (List.range pu.length).all fun c =>
+    let x := pu.getD c {}; let y := ou.getD c {}
+    x.rpc ≤ y.rpc && x.storage ≤ y.storage && x.egress ≤ y.egress && x.ingress ≤ y.ingress &&
+    x.registryRead ≤ y.registryRead && x.registryWrite ≤ y.registryWrite && y.accountFunding ≤ x.accountFunding &&
+    x.riskedCollateral == y.riskedCollateral
+  let bounded := catSum pu ou (·.rpc) ≤ u.rpc && catSum pu ou (·.storage) ≤ u.storage && catSum pu ou (·.egress) ≤ u.egress &&
+    catSum pu ou (·.ingress) ≤ u.ingress && catSum pu ou (·.registryRead) ≤ u.registryRead &&
+    catSum pu ou (·.registryWrite) ≤ u.registryWrite
+  others && shrunk && untouchedVersion && grow && bounded && pu.length == ou.length
+
+def apiConsistent (obs : List (String × String)) (o : Obs) : Bool :=
+  lookup obs "u1" == lookup obs "u1api" && lookup obs "u2" == lookup obs "u2api" &&
+  lookup obs "af1" == some (showStrs (sortStrs (o.f1.map fun r => s!"{r.contract}:{r.account}:{r.amount}"))) &&
+  lookup obs "fc1" == some (toString o.f1.length) && lookup obs "fc2" == some (toString o.f2.length)
+
+/-- monitors of C11 clauses (a firing one forbids adopting the implementation's tables) -/
+def c11Monitor : Verdict → Bool
+  | .monitor nm _ => nm.startsWith "funding_rows_sum" || nm.startsWith "per_contract_conserved" ||
+      nm.startsWith "moved_eq_debit" || nm.startsWith "no_negative" || nm.startsWith "no_panic"
+  | _ => false
+
+def adopt (s : State) (o : Obs) (v2 : Bool) : State :=
+  if v2 then { s with st := { s.st with rows2 := o.f2, c2 := fun c => o.u2.getD c {} } }
+  else { s with st := { s.st with rows1 := o.f1, c1 := fun c => o.u1.getD c {} } }
+
 /-! ### model step with fact inference -/
 
 structure MRes where
@@ -276,12 +331,18 @@ def explain (d : DState) (l : Line) (run : Facts → MRes) (res ret : String) (c
     let r := run fx
     let v := cmp "c04.res" r.out (resClass res) ++ (if cmpRet && r.out == "ok" then cmp "c04.ret" r.ret ret else [])
     (r, v ++ diffFields r.s l.obs)
-  let (r0, v0) := judge d.facts
-  if v0.isEmpty then (d.facts, r0, [])
-  else
-    match (allFacts.filter (· != d.facts)).find? fun fx => (judge fx).2.isEmpty with
-    | some fx => (fx, (judge fx).1, [])
-    | none => (d.facts, r0, v0)
+  let onlyDist (v : List Verdict) : Bool := v.all fun x => match x with
+    | .mismatch f _ _ => distFields.contains f
+    | _ => false
+  let cands := d.facts :: allFacts.filter (· != d.facts)
+  -- first choice: facts that explain the line; second: facts that explain everything but the
+  -- (unconstrained) order of the attribution; else report against the current facts
+  match cands.find? fun fx => (judge fx).2.isEmpty with
+  | some fx => (fx, (judge fx).1, [])
+  | none =>
+    match cands.find? fun fx => onlyDist (judge fx).2 with
+    | some fx => (fx, (judge fx).1, (judge fx).2)
+    | none => (d.facts, (judge d.facts).1, (judge d.facts).2)
 
 def bumpIf (c : Bool) (n : Nat) : Nat := if c then n + 1 else n
 
@@ -306,12 +367,26 @@ def step (d : DState) (l : Line) : DState × List Verdict :=
     let ret := (getStr l.obs "ret").getD ""
     let d := { d with lines := d.lines + 1 }
     -- finish: model comparison verdicts `mv`, op specific monitors `ov`, updated bookkeeping `d'`
-    let finish (dOld d' : DState) (fx : Facts) (m : MRes) (mv ov : List Verdict) : DState × List Verdict :=
+    let finishD (dOld d' : DState) (fx : Facts) (m : MRes) (mv ov : List Verdict)
+        (debit : Option (Bool × Nat × Usage)) : DState × List Verdict :=
       let sv := stateMonitors dOld d' p o l.op resOk
       let pv := panicMonitor l.op res
-      let d'' := { d' with s := m.s, facts := fx, prev := o, dead := !mv.isEmpty,
-                           factSwitches := bumpIf (fx != dOld.facts) d'.factSwitches }
+      let onlyDist := !mv.isEmpty && mv.all fun v => match v with
+        | .mismatch f _ _ => distFields.contains f
+        | _ => false
+      let adoptIt := match debit with
+        | some (v2, a, u) => onlyDist && !(ov ++ sv ++ pv).any c11Monitor && validAttribution p o v2 a u && apiConsistent l.obs o
+        | none => false
+      let ms := match debit with
+        | some (v2, _, _) => if adoptIt then adopt m.s o v2 else m.s
+        | none => m.s
+      let mv := if adoptIt then [] else mv
+      let d'' := { d' with s := ms, facts := fx, prev := o, dead := !mv.isEmpty,
+                           factSwitches := bumpIf (fx != dOld.facts) d'.factSwitches,
+                           adopted := bumpIf adoptIt d'.adopted }
       (d'', mv ++ pv ++ ov ++ sv)
+    let finish (dOld d' : DState) (fx : Facts) (m : MRes) (mv ov : List Verdict) : DState × List Verdict :=
+      finishD dOld d' fx m mv ov none
     if l.op == "status" then
       -- contract status changes do not touch the ledger: everything but st1/st2 must stay
       let mv := diffFields d.s l.obs
@@ -391,7 +466,7 @@ def step (d : DState) (l : Line) : DState × List Verdict :=
             let ov := (if exact then [] else [Verdict.monitor "commit_exact" s!"account={a},spent={t},before={p.sbal},after={o.sbal}"]) ++
                       conservedMonitor p o false false (b.usage.registryRead + b.usage.registryWrite) ++
                       conservedMonitor p o false true (b.usage.registryRead + b.usage.registryWrite) ++ movedMonitor p o false a t
-            finish d d' fx m mv ov
+            finishD d d' fx m mv ov (some (false, a, b.usage))
           else
             -- committed twice / after rollback (no-op) or failed: no balance, funding row or contract may move
             let d' := if resOk then d else { d with commitsFail := d.commitsFail + 1 }
@@ -403,6 +478,53 @@ def step (d : DState) (l : Line) : DState × List Verdict :=
               [Verdict.monitor "no_overdraft" s!"commit of a granted reservation refused: budget={i},spent={t},balance={nth p.sbal a}"] else []
             finish d d' fx m mv (ov ++ ov2)
       | _, _ => ({ d with dead := true }, [.badline "commit fields"])
+    else if l.op == "par" then
+      -- k goroutines reserve `amt` on the same account at the same time, then (after a barrier)
+      -- all granted ones spend `u` and commit/roll back at the same time.  Since the operations
+      -- are atomic the outcome must be that of SOME sequential order; all orders give the same
+      -- counts and the same final ledger, which the model computes with one of them.
+      match getNat l.args "a", getNat l.args "k", getNat l.args "amt", (getNatList l.args "u").bind usage3,
+            getNat l.args "commit", getNat l.obs "granted", getNat l.obs "spent", getNat l.obs "cerr" with
+      | some a, some k, some amt, some u, some cm, some g, some sp, some ce =>
+        let n0 := d.s.budgets.length
+        let runModel : MRes :=
+          let (s1, gm) := (List.range k).foldl (fun (acc : State × Nat) _ =>
+            let x := budget acc.1 a amt
+            (x.1, if x.2 == .ok then acc.2 + 1 else acc.2)) (d.s, 0)
+          let ids := (List.range gm).map (· + n0)
+          let (s2, spm) := ids.foldl (fun (acc : State × Nat) i =>
+            let x := spend acc.1 i u
+            (x.1, if x.2 == .ok then acc.2 + 1 else acc.2)) (s1, 0)
+          let (s3, cem) := ids.foldl (fun (acc : State × Nat) i =>
+            let x := if cm == 1 then commit acc.1 i false else rollback acc.1 i
+            (x.1, if x.2 == .ok then acc.2 else acc.2 + 1)) (s2, 0)
+          { s := s3, out := "ok", ret := s!"{gm},{spm},{cem}" }
+        let (fx, m, mv) := explain d l (fun _ => runModel) res s!"{g},{sp},{ce}" true
+        let spentEach := if sp == g then u else {}
+        let t := spentEach.total3
+        let committed := if cm == 1 then g - ce else 0
+        let tot : Usage := { rpc := u.rpc * committed, storage := u.storage * committed, egress := u.egress * committed,
+                             ingress := u.ingress * committed, registryRead := u.registryRead * committed,
+                             registryWrite := u.registryWrite * committed }
+        let tot := if sp == g then tot else {}
+        -- budgets whose commit the store refused stay open; the harness numbers them last
+        let d' := { d with ibud := d.ibud ++ (List.replicate (g - ce) { acct := a, max := amt, usage := spentEach, isOpen := false }) ++
+                                   (List.replicate ce { acct := a, max := amt, usage := spentEach, isOpen := true }),
+                           iwd := setNth d.iwd a (nth d.iwd a + committed * t),
+                           budgetsOk := d.budgetsOk + g, commitsOk := d.commitsOk + committed,
+                           parOps := d.parOps + 1, parGranted := d.parGranted + g, parRefused := d.parRefused + (k - g) }
+        let ov : List Verdict :=
+          (if nthB d.taint a || g * amt + iResv d.ibud a ≤ nth p.sbal a then [] else
+            [Verdict.monitor "budget_iff" s!"concurrent: account={a},granted={g}x{amt},balance={nth p.sbal a},other_reservations={iResv d.ibud a}"]) ++
+          (if sp == g || sp == 0 then [] else [Verdict.monitor "no_overdraft" s!"concurrent spends disagree: granted={g},spent={sp}"]) ++
+          (if nthB d.taint a || ce == 0 || t == 0 then [] else
+            [Verdict.monitor "no_overdraft" s!"concurrent commit of granted reservations refused: account={a},refused={ce}"]) ++
+          (if (List.range nAccts).all (fun x => nth o.sbal x + (if x == a then committed * t else 0) == nth p.sbal x) then [] else
+            [Verdict.monitor "commit_exact" s!"concurrent: account={a},committed={committed}x{t},before={p.sbal},after={o.sbal}"]) ++
+          conservedMonitor p o false false (tot.registryRead + tot.registryWrite) ++
+          conservedMonitor p o false true (tot.registryRead + tot.registryWrite) ++ movedMonitor p o false a (committed * t)
+        finishD d d' fx m mv ov (some (false, a, tot))
+      | _, _, _, _, _, _, _, _ => ({ d with dead := true }, [.badline "par fields"])
     else if l.op == "rollback" then
       match getNat l.args "b" with
       | some i =>
@@ -462,7 +584,7 @@ def step (d : DState) (l : Line) : DState × List Verdict :=
                       [Verdict.monitor "mixed_protocol_reservation" s!"account={a},debit={cost},balance={nth p.sbal a},rhp3_reservations={iResv d.ibud a},open_budgets={iOpen d.ibud a},manager_balance_after={nth o.bal a},covered={covered}"]) ++
                     (if exact then [] else [Verdict.monitor "commit_exact" s!"rhp4 debit: account={a},cost={cost},before={p.sbal},after={o.sbal}"]) ++
                     conservedMonitor p o true false 0 ++ conservedMonitor p o true true 0 ++ movedMonitor p o true a u.dist4
-          finish d d' fx m mv ov
+          finishD d d' fx m mv ov (some (true, a, u))
         else
           let ov := if o.sbal == p.sbal && showRows o.f2 == showRows p.f2 && o.mbal == p.mbal then [] else
             [Verdict.monitor "ledger_eq" s!"refused debit changed the store: before={p.sbal},after={o.sbal}"]
@@ -471,6 +593,6 @@ def step (d : DState) (l : Line) : DState × List Verdict :=
     else ({ d with dead := true }, [.badline "unknown op"])
 
 def stats (d : DState) : String :=
-  s!"hists={d.hists} oplines={d.lines} credits_ok={d.creditsOk} budgets_ok={d.budgetsOk} commits_ok={d.commitsOk} commits_failed={d.commitsFail} rollbacks={d.rollbacks} rhp4credits_ok={d.credits4Ok} rhp4debits_ok={d.debits4Ok} debits_multi_source={d.multiSource} debits_exhausting_row={d.exhausted} debits_beyond_funding={d.undistributed} mixed_key_ops={d.mixedKey} fact_switches={d.factSwitches}"
+  s!"hists={d.hists} oplines={d.lines} credits_ok={d.creditsOk} budgets_ok={d.budgetsOk} commits_ok={d.commitsOk} commits_failed={d.commitsFail} rollbacks={d.rollbacks} rhp4credits_ok={d.credits4Ok} rhp4debits_ok={d.debits4Ok} debits_multi_source={d.multiSource} debits_exhausting_row={d.exhausted} debits_beyond_funding={d.undistributed} mixed_key_ops={d.mixedKey} fact_switches={d.factSwitches} attributions_validated={d.adopted} concurrent_rounds={d.parOps} concurrent_granted={d.parGranted} concurrent_refused={d.parRefused}"
 
 end Hostd.Drive.Accounts
